@@ -125,7 +125,11 @@ def run(ctx):
             if _ % 3 == 0:
                 for hq, tq in ((['1 -1 req com.example.A %d' % rng.randrange(8)], '1 K rel com.example.A'),
                                (['1 -1 req com.example.A %d' % rng.choice([0, 1]), '2 -1 req com.example.A %d' % rng.choice([0, 1]),
-                                 '3 -1 req com.example.A 0'], '%d K rel com.example.A' % rng.choice([1, 1, 2]))):
+                                 '3 -1 req com.example.A 0'], '%d K rel com.example.A' % rng.choice([1, 1, 2])),
+                               # a queued owner replaces a primary owner that allows it (owners change places, nothing is
+                               # removed: the undo of the swap) -- behind one or two queue entries
+                               (['1 -1 req com.example.A 1', '2 -1 req com.example.A 0', '3 -1 req com.example.A %d' % rng.choice([0, 1])],
+                                '%d K req com.example.A %d' % (rng.choice([2, 3]), rng.choice([2, 3])))):
                     hh = h[:3] + hq
                     out, rc, err = run_script(ctx.build, conf, hh + [tq.replace(' K ', ' -1 ')])
                     if rc != 0 or not out.strip():
@@ -137,7 +141,7 @@ def run(ctx):
                     for k in ks:
                         c = tq.split()[0]
                         jobs.append((hh + [tq.replace(' K ', ' %d ' % k), 'dump', tq.replace(' K ', ' -1 '), 'dump', '%s -1 req com.example.B 0' % c,
-                                           'dump', '%s -1 drop' % c, 'dump', '3 -1 list com.example.A'],
+                                           'dump', '%s -1 drop' % c, 'dump', '%d -1 list com.example.A' % (1 if c != '1' else 2)],
                                      '%s | %s | k=%d' % (' ; '.join(hh[3:]), tq, k)))
             # a Hello that fails half-way, then ANOTHER client's Hello: whatever the first one got, the second name is fresh
             h3 = ['1 -1 hello', '2 -1 hello'] + [x for x in h[3:] if x.split()[0] in ('1', '2')][:3]
